@@ -458,8 +458,9 @@ static void build_menu()
           return rc;
       },
       [](std::vector<B> &o, const std::vector<B> &i, XS &x) {
-          x.push_back(i[0]->dumps().size() > 0 ? "nonempty" : "empty");
-          o[0] = i[0];
+          std::string d = i[0]->dumps();
+          x.push_back(d.size() > 0 ? "nonempty" : "empty");
+          o[0] = Basic::loads(d); // the core composition (whether loads(dumps(e)) == e is C19/C20's subject)
       },
       true);
     for (const char *s : {"", "garbage", "\x01\x02\x03\x04\x05\x06\x07\x08"}) {
@@ -990,6 +991,18 @@ static void build_menu()
           vectorint_push_back(v, -7);
           x.push_back(its(vectorint_get(v, 0)) + "," + its(vectorint_get(v, 1)));
           vectorint_free(v);
+          // placement variants and stack handles
+          alignas(16) char buf[64];
+          x.push_back(its(vectorint_placement_new_check(buf, sizeof buf)) + its(vectorint_placement_new_check(buf, 1)) + its(vectorint_placement_new_check(buf + 1, sizeof buf - 1)));
+          CVectorInt *pv = vectorint_placement_new(buf);
+          vectorint_push_back(pv, 42);
+          x.push_back(its(vectorint_get(pv, 0)));
+          vectorint_placement_free(pv);
+          basic st;
+          basic_new_stack(st);
+          integer_set_si(st, 9);
+          x.push_back(hk(st));
+          basic_free_stack(st);
           return 0;
       },
       [](std::vector<B> &, const std::vector<B> &, XS &x) {
@@ -997,6 +1010,9 @@ static void build_menu()
           x.push_back("00");
           x.push_back(ascii_art());
           x.push_back("5,-7");
+          x.push_back("012"); // fits / too small / misaligned
+          x.push_back("42");
+          x.push_back("I:9");
       });
 }
 
@@ -1241,13 +1257,19 @@ static void exec_case(const Fn &f, const std::vector<int> &a, int mode, Ctx &c, 
         // error code: allowed by the statement; outputs should be untouched
         for (int o = 0; o < f.nout; o++) {
             const Basic *was = (o == ao) ? args[aj].get() : nullptr;
-            if (H(op[o]).get() != was)
+            if (H(op[o]).get() != was) {
                 c.count(K_OUT_CHANGED_ON_ERR);
+                if (getenv("C42_DEBUG"))
+                    fprintf(stderr, "OUTCHANGED %s: rc=%d output %d now %s\n", desc.c_str(), C.rc, o, hk(op[o]).substr(0, 60).c_str());
+            }
         }
         if (K.rc != 0) {
             c.count(K_BOTH_ERR);
-            if (K.rc != C.rc && K.what != "documented: error code expected")
+            if (K.rc != C.rc && K.what != "documented: error code expected") {
                 c.count(K_CODE_DIFFERS);
+                if (getenv("C42_DEBUG"))
+                    fprintf(stderr, "CODEDIFF %s: C rc=%d core rc=%d (%s)\n", desc.c_str(), C.rc, K.rc, K.what.substr(0, 80).c_str());
+            }
             c.outcome("err" + its(C.rc) + ":" + sigclass(f));
         } else {
             c.count(K_C_ERR_CORE_OK);
@@ -2019,6 +2041,26 @@ static void build_matrix_cases()
                     return o + "]";
                 });
         }
+    for (unsigned r = 1; r <= 3; r++)
+        for (unsigned cc = 1; cc <= 3; cc++)
+            MADD("dense_matrix_rows_cols([[1,2],[3,4]] -> " + its(r) + "x" + its(cc) + ") then fill", "dense_matrix_rows_cols", [=](std::string &out) -> int {
+                CMat m(MP[2]);
+                int rc = dense_matrix_rows_cols(m.p, r, cc);
+                Hd h;
+                for (unsigned i = 0; i < r && rc == 0; i++)
+                    for (unsigned j = 0; j < cc && rc == 0; j++) {
+                        integer_set_si(h.p, 10 * i + j);
+                        rc = dense_matrix_set_basic(m.p, i, j, h.p);
+                    }
+                out = mkeys(m.p);
+                return rc;
+            }, [=]() -> std::string {
+                std::string o = its(r) + "x" + its(cc) + "[";
+                for (unsigned i = 0; i < r; i++)
+                    for (unsigned j = 0; j < cc; j++)
+                        o += "I:" + its(10 * i + j) + ";";
+                return o + "]";
+            });
     for (int len = 1; len <= 2; len++)
         for (int k = -2; k <= 2; k++)
             MADD("dense_matrix_diag([x,y][:" + its(len) + "], " + its(k) + ")", "dense_matrix_diag", [=](std::string &out) -> int {
@@ -2444,10 +2486,8 @@ int main(int argc, char **argv)
             int mode;
             const Plan &p = L1.decode(i, a, mode);
             const Fn &f = FN[p.fn];
-            if (mode != 0 || f.nout == 0)
-                continue;
-            if (!thorough && !f.d2)
-                continue; // quick: successors of the restricted menu only
+            if (mode != 0 || f.nout == 0 || f.in.empty() || !f.d2)
+                continue; // successors of the restricted menu applied to pool handles (setters with huge scalars are not sources)
             std::vector<B> args, out(f.nout);
             for (int k : a)
                 args.push_back(SS.S[k].e);
@@ -2470,7 +2510,7 @@ int main(int argc, char **argv)
             if (!FN[f].d2 || FN[f].in.empty())
                 continue;
             int nin = FN[f].in.size();
-            // the new state in one position, pool handles (reduced pool in quick) in the others
+            // the new state in one position, handles of the reduced pool in the others
             for (int pos = 0; pos < nin; pos++) {
                 Plan p;
                 p.fn = (int)f;
@@ -2480,10 +2520,6 @@ int main(int argc, char **argv)
                     std::vector<int> cand;
                     if (q == pos) {
                         for (int s : fresh)
-                            if (in_class(FN[f].in[q], *SS.S[s].e))
-                                cand.push_back(s);
-                    } else if (thorough) {
-                        for (int s = 0; s < NPOOL; s++)
                             if (in_class(FN[f].in[q], *SS.S[s].e))
                                 cand.push_back(s);
                     } else
